@@ -52,7 +52,7 @@ def all_mixins_yaml(hm):
 
 
 def program_diff(label):
-    from checks.c03 import stub_table
+    from checks.c03 import stub_cache_problems, stub_table
     hm = ch.load_module(H)
     all_mixins = set(CANON)
     if label == "all":
@@ -92,6 +92,14 @@ def program_diff(label):
         tables = {"grpc": stub_table(grpc, "GrpcTransport"),
                   "grpc_asyncio": stub_table(g.text(f"services/{svc}/transports/grpc_asyncio.py"), "GrpcAsyncIOTransport")}
         srcs = {"grpc": g.text(f"services/{svc}/client.py"), "grpc_asyncio": g.text(f"services/{svc}/async_client.py")}
+        # the stub cache is per transport instance: mixin and API stubs must not share a key
+        for tname, fname, suffix in (("grpc", "grpc.py", "GrpcTransport"), ("grpc_asyncio", "grpc_asyncio.py", "GrpcAsyncIOTransport")):
+            _keys, kbad = stub_cache_problems(g.text(f"services/{svc}/transports/{fname}"), suffix)
+            if kbad:
+                for prop, text in kbad.items():
+                    bad[f"{label}:{svc}:stub-cache:{tname}:{prop}"] = text
+            else:
+                oks.append(f"{label}:{svc}:stub-cache:{tname}")
         for m in exp:
             for tname, table in tables.items():
                 key = f"{label}:{svc}:stub:{tname}:{m}"
